@@ -5,7 +5,7 @@ from framework import coq_bs, coq_z, coq_list, coq_opt
 ID = 'C02'
 COQ_IMPORTS = ['G_gff', 'C02_Model']
 GENERATORS = ['gen_gff']
-RULE = ('six streams: (seqgff) BioBaskets whose sequences carry features (some without seqid, some naming another or no sequence) '
+RULE = ('eight streams: (xsvw) FeatureLists -> TSV/CSV text -> records for any list of column names (subsets, repetitions, defect, foreign metadata columns), keys as list / tuple / one string with arbitrary white space, fourteen separators, ftype naming a column or a literal, via str / file / detection: the written text is compared byte for byte with the model, the records or the KeyError with the model and the oracle; (xsvr) tables written by other programs (columns by name anywhere, contradicting len, negative coordinates, blank lines, empty ranges, unknown strands, missing columns); (seqgff) BioBaskets whose sequences carry features (some without seqid, some naming another or no sequence) '
         'through write(fmt=gff) / read(fmt=gff or detected); TSV/CSV selections with extra metadata columns named like MMseqs2/BLAST '
         'columns, read back with fmt= and with auto-detection; (hist) histories on the same live FeatureLists / texts: repeated GFF cycles and TSV/CSV writes with different '
         'column selections in any order, in-place edits (aliases, _gff entries, locations) in between, mutation of every returned '
@@ -39,7 +39,9 @@ MODELLED_FUNCS = {'sugar/_io/gff.py': ['read_fts_gff', 'write_fts_gff', 'read_gf
                                         'FeatureList.tolists', 'FeatureList.topandas', 'FeatureList.frompandas'],
                   'sugar/_io/tab/xsv.py': ['_read_fts_xsv', '_write_fts_xsv', 'read_fts_tsv', 'read_fts_csv', 'write_fts_tsv', 'write_fts_csv']}
 RESERVED_CHARS = '\t;=,%& '
-SEPS = {'tab': '\t', 'comma': ',', 'semi': ';', 'pipe': '|', 'space': ' '}
+SEPS5 = ['tab', 'comma', 'semi', 'pipe', 'space']
+SEPS = {'tab': '\t', 'comma': ',', 'semi': ';', 'pipe': '|', 'space': ' ', 'colon': ':', 'bang': '!', 'tilde': '~', 'caret': '^',
+        'at': '@', 'x': 'x', 'slash': '/', 'amp': '&', 'underscore': '_'}
 XKEYS = ['type', 'start', 'stop', 'len', 'strand']
 ATTR_RESERVED = {'clear', 'copy', 'get', 'items', 'keys', 'pop', 'popitem', 'setdefault', 'update', 'values'}
 COLKEYS = ('seqid', 'source', 'score', 'phase', 'type')
@@ -226,6 +228,13 @@ def impl(case):
                     case.get('ftype'), case.get('_auto'))
     if k == 'seqgff':
         return impl_seqgff(case)
+    if k == 'xsvw':
+        return _xsvw(build_fts(case['fts']), case['names'], case.get('keystr'), case['_sep'], case['_fmt'], case.get('ft'), case.get('_auto'),
+                     case.get('_via', 'str'))
+    if k == 'xsvr':
+        return _xsv_read(case['t'], case['_sep'], case['_fmt'], case.get('ft'))
+    if k == 'disp':
+        return impl_disp(case)
     raise ValueError(k)
 
 
@@ -308,6 +317,88 @@ def _xsv(fts, keys, sepname, fmt, keystr, ftype=None, auto=False):
             assert res2 == res, 'read with auto-detection differs: %r' % (res2,)
             assert all(ft.meta.get('_fmt') == fmt for ft in back2), 'detected as %r' % ([ft.meta.get('_fmt') for ft in back2][:1],)
         return [rows, res]
+
+
+def _obs_rec(ft):
+    t = ft.type
+    if t is not None and not isinstance(t, str):
+        t = 'not-str:%r' % (t,)
+    l = ft.loc
+    a, b = l.start, l.stop
+    if type(a) is not int or type(b) is not int:
+        a, b = 'not-int:%r' % (a,), 'not-int:%r' % (b,)
+    assert len(ft.locs) == 1
+    return [t, a, b, str(l.strand)]
+
+
+def _xsv_kw(sepname, fmt):
+    sep = SEPS[sepname]
+    return sep, ({} if (fmt, sep) in (('tsv', '\t'), ('csv', ',')) else {'sep': sep})
+
+
+def _read_records(text, fmt, kw, via='str'):
+    """read a table; the exception classes frompandas / read_csv are specified to raise are part of the observation"""
+    from sugar import read_fts
+    try:
+        if via == 'file':
+            fd, fn = tempfile.mkstemp(suffix='.' + fmt, prefix='C02-', dir='/tmp')
+            try:
+                with os.fdopen(fd, 'w', newline='') as f:
+                    f.write(text)
+                back = read_fts(fn, fmt, **kw)
+            finally:
+                os.remove(fn)
+        else:
+            back = read_fts(io.StringIO(text), fmt=fmt, **kw)
+    except (KeyError, ValueError) as e:
+        n = type(e).__name__
+        return {'e': n if n in ('KeyError', 'ValueError', 'EmptyDataError') else 'ValueError'}
+    assert all(ft.meta.get('_fmt') == fmt for ft in back), 'meta._fmt'
+    return [_obs_rec(ft) for ft in back]
+
+
+def _xsvw(fts, names, keystr, sepname, fmt, ft, auto, via='str'):
+    """FeatureList -> table text (any list of column names, given as a list/tuple or as one string) -> records"""
+    sep, kw = _xsv_kw(sepname, fmt)
+    keys = keystr if keystr is not None else (list(names) if len(names) % 2 else tuple(names))
+    before = obs_fts(fts)
+    if via == 'file':
+        fd, fn = tempfile.mkstemp(suffix='.' + fmt, prefix='C02-', dir='/tmp')
+        os.close(fd)
+        try:
+            fts.write(fn, keys=keys, **kw)                  # format from the extension
+            with open(fn, newline='') as f:
+                text = f.read()
+        finally:
+            os.remove(fn)
+    else:
+        text = fts.tofmtstr(fmt, keys=keys, **kw)
+    assert obs_fts(fts) == before, 'operand changed by the table writer'
+    rkw = dict(kw)
+    if ft is not None:
+        rkw['ftype'] = ft
+    res = _read_records(text, fmt, rkw, via)
+    if auto and not kw and ft is None and isinstance(res, list) and via == 'str':
+        # the same file read with format auto-detection, as sugar's own table tests do
+        from sugar import read_fts
+        fd, fn = tempfile.mkstemp(suffix='.txt', prefix='C02-', dir='/tmp')
+        try:
+            with os.fdopen(fd, 'w', newline='') as f:
+                f.write(text)
+            back2 = read_fts(fn)
+        finally:
+            os.remove(fn)
+        res2 = [_obs_rec(f2) for f2 in back2]
+        assert res2 == res, 'read with auto-detection differs: %r' % (res2,)
+        assert all(f2.meta.get('_fmt') == fmt for f2 in back2), 'detected as %r' % ([f2.meta.get('_fmt') for f2 in back2][:1],)
+    return [text, res]
+
+
+def _xsv_read(text, sepname, fmt, ft):
+    sep, kw = _xsv_kw(sepname, fmt)
+    if ft is not None:
+        kw['ftype'] = ft
+    return _read_records(text, fmt, kw)
 
 
 # ---- histories (state independence): several calls on the same live objects / texts, edits in between; the model is pure, so
@@ -472,6 +563,12 @@ def _model_term(case):
     if k == 'xsv' and case.get('ftype') is not None:
         ft = 'FStrand' if case['ftype'][0] == 'col' else '(FLit %s)' % coq_bs(case['ftype'][1])
         return 'out (run_C02_xsv_t %s %s %s)' % (ft, _coq_keys(case['keys']), coq_list([coq_feat(f) for f in case['fts']]))
+    if k == 'xsvw':
+        ka = '(KStr %s)' % coq_bs(case['keystr']) if case.get('keystr') is not None else '(KList %s)' % coq_list([coq_bs(n) for n in case['names']])
+        return 'out (run_C02_xsvw x%02x %s %s %s)' % (ord(SEPS[case['_sep']]), coq_opt(case.get('ft'), coq_bs), ka,
+                                                     coq_list([coq_feat(f) for f in case['fts']]))
+    if k == 'xsvr':
+        return 'out (run_C02_xsvr x%02x %s %s)' % (ord(SEPS[case['_sep']]), coq_opt(case.get('ft'), coq_bs), coq_bs(case['t']))
     if k == 'edit':
         eds = coq_list(['(%d%%nat, %s, %s)' % (i, coq_bs(key), coq_aval(v)) for i, key, v in case['edits']])
         return 'out (run_C02_edit %s %s)' % (coq_bs(case['t']), eds)
@@ -493,7 +590,10 @@ def _xsv_wf(fts, keys):
 
 def split_model(case, m):
     if case['_k'] == 'hist':
-        tr = hist_trace(case)
+        try:
+            tr = hist_trace(case)
+        except Exception:
+            return False, m                  # a shrinking candidate that is no history any more
         if not isinstance(m, list) or len(m) != len(tr) or any(not isinstance(x, list) or len(x) != 3 for x in m):
             return False, m
         wf = all(bool(x[0]) for x in m) and all(_xsv_wf(val, st[2]) for st, val in tr if st[0] == 'xsv')
@@ -675,6 +775,10 @@ def _spec(case, got, skip_firstloc):
         return _spec_hist(case, got, skip_firstloc)
     if case['_k'] == 'xsv':
         return spec_xsv(case, got)
+    if case['_k'] == 'xsvw':
+        return spec_xsvw(case, got)
+    if case['_k'] == 'xsvr':
+        return spec_xsvr(case, got)
     if isinstance(got, dict):
         return 'raised %s on an input of the domain' % got['e']
     o0, w1, o1, w2, w3 = got
@@ -748,6 +852,87 @@ def _spec(case, got, skip_firstloc):
                         continue
                     if (gk in base) != (mk in m1) or (gk in base and base[gk] != m1[mk]):
                         return 'alias %s of the feature read back is %r, attribute %s is %r' % (mk, m1.get(mk), gk, base.get(gk))
+    return None
+
+
+def _sel_ok(names):
+    return ('start' in names and 'stop' in names) or ('len' in names and ('start' in names or 'stop' in names))
+
+
+def spec_xsvw(case, got):
+    """TSV/CSV: the selected columns are written in the selected order with the selected separator, one line per feature, and are
+    read back (type, 0-based start, half-open stop, strand) exactly when the selection holds start and stop, or len and one of them"""
+    if isinstance(got, dict):
+        return 'raised %s on an input of the domain' % got['e']
+    text, res = got
+    names = case['keystr'].split() if case.get('keystr') is not None else list(case['names'])
+    sep = SEPS[case['_sep']]
+    lines = text.split('\n')
+    if lines[-1] != '' or lines[0].split(sep) != names:
+        return 'header line %r for columns %r' % (lines[0], names)
+    if len(lines) - 2 != len(case['fts']):
+        return '%d lines for %d features' % (len(lines) - 2, len(case['fts']))
+    want = []
+    for f, ln in zip(case['fts'], lines[1:-1]):
+        meta = dict((k, v) for k, v in f['meta'])
+        locs = expected_order([l[:3] for l in f['locs']])
+        a, b = min(l[0] for l in locs), max(l[1] for l in locs)
+        vals = {'start': str(a), 'stop': str(b), 'len': str(b - a), 'strand': locs[0][2], 'defect': '0'}
+        cells = [vals[n] if n in vals else (meta[n][1] if n in meta else '') for n in names]
+        if ln.split(sep) != cells:
+            return 'line %r for cells %r' % (ln, cells)
+        ft = case.get('ft')
+        if 'type' in names:
+            t = meta['type'][1] if 'type' in meta else None
+        elif ft is None:
+            t = None
+        elif ft in names:
+            t = cells[names.index(ft)]
+        else:
+            t = ft
+        want.append([t, a, b, locs[0][2] if 'strand' in names else '?'])
+    if not _sel_ok(names):
+        want = {'e': 'KeyError'} if want else []
+    if res != want:
+        return 'read back %r, expected %r' % (res, want)
+    return None
+
+
+def spec_xsvr(case, got):
+    """a table from elsewhere: the columns are found by name wherever they stand; start and stop win over len, else
+    stop = start + len / start = stop - len; KeyError when neither pair is there, ValueError for an empty range or a bad strand"""
+    sep = SEPS[case['_sep']]
+    lines = [ln for ln in case['t'].split('\n') if ln != '']
+    if not lines:
+        want = {'e': 'EmptyDataError'}
+    else:
+        names = lines[0].split(sep)
+        want = []
+        for ln in lines[1:]:
+            row = {}
+            for n, c in zip(names, ln.split(sep)):
+                row.setdefault(n, c)
+            try:
+                if 'start' in row and 'stop' in row:
+                    a, b = int(row['start']), int(row['stop'])
+                elif 'len' in row and 'start' in row:
+                    a = int(row['start']); b = a + int(row['len'])
+                elif 'len' in row and 'stop' in row:
+                    b = int(row['stop']); a = b - int(row['len'])
+                else:
+                    want = {'e': 'KeyError'}
+                    break
+            except ValueError:
+                return 'a start/stop/len cell is no integer although the model places the table in its domain'
+            sd = row.get('strand', '?')
+            if not a < b or sd not in ('+', '-', '.', '?'):
+                want = {'e': 'ValueError'}
+                break
+            ft = case.get('ft')
+            t = row['type'] if 'type' in row else (None if ft is None else row.get(ft, ft))
+            want.append([t, a, b, sd])
+    if got != want:
+        return 'read %r, expected %r' % (got, want)
     return None
 
 
@@ -1093,7 +1278,7 @@ def gen_hist(rng):
             steps.append(['gff', li, 'file' if rng.random() < 0.15 else 'str'])
         elif r < 0.5:
             fmt = rng.choice(['tsv', 'csv'])
-            steps.append(['xsv', li, keysel(), {'tsv': 'tab', 'csv': 'comma'}[fmt] if rng.random() < 0.6 else rng.choice(list(SEPS)), fmt, rng.random() < 0.5])
+            steps.append(['xsv', li, keysel(), {'tsv': 'tab', 'csv': 'comma'}[fmt] if rng.random() < 0.6 else rng.choice(SEPS5), fmt, rng.random() < 0.5])
         elif r < 0.62:
             steps.append(['rtext', rng.randrange(len(texts))])
         elif r < 0.8:
@@ -1160,7 +1345,7 @@ def gen_xsv(rng):
     if not keys:
         keys = ['type', 'start', 'stop', 'strand']
     fmt = rng.choice(['tsv', 'csv'])
-    sep = {'tsv': 'tab', 'csv': 'comma'}[fmt] if rng.random() < 0.6 else rng.choice(list(SEPS))
+    sep = {'tsv': 'tab', 'csv': 'comma'}[fmt] if rng.random() < 0.6 else rng.choice(SEPS5)
     c = {'_k': 'xsv', 'keys': keys, '_sep': sep, '_fmt': fmt, 'fts': fts, '_keystr': rng.random() < 0.5}
     if rng.random() < 0.3:
         if 'type' in keys and rng.random() < 0.7:
@@ -1182,6 +1367,128 @@ def gen_xsv(rng):
         c['keys'] = [k for k in allkeys if k in XKEYS]
         c['allkeys'] = allkeys
     c['_auto'] = rng.random() < 0.7
+    return c
+
+
+XTEXT = ['v1', 'x7', 'abc', 'q_9', 'Gene:1', 'a.b-c', 'k', 'val(2)', 'A B', 'mi|x', 'p;q', 'r:s', 'u~v', 'w^z', 'e@f', 'g/h', 'R&D', 'i_j', 'l!m']
+XTEXT_OUT = ['12', '1.5', 'NA', 'nan', 'True', '', ' lead', 'trail ', 'say "hi"', '-', '+x', 'None', '1e5', 'two\nlines']
+
+
+def gen_xsvw(rng):
+    """FeatureList -> TSV/CSV text -> features, for ANY list of column names: any subset / order of type,start,stop,len,strand,
+    repeated names, defect, metadata columns (also named like columns of other tabular formats), keys as list, tuple or one string
+    with arbitrary white space, fourteen separators, ftype naming a column / a literal, via str and via file"""
+    base = gen_xsv(rng)
+    fts = base['fts']
+    for f in fts:
+        f['meta'] = [kv for kv in f['meta'] if kv[0] == 'type']
+        f.pop('_ctor', None)
+    names = [k for k in XKEYS if rng.random() < 0.7]
+    r = rng.random()
+    if r < 0.8:
+        while not _sel_ok(names):
+            names.append(rng.choice([k for k in ('start', 'stop', 'len') if k not in names]))
+    if rng.random() < 0.75 and 'type' not in names:
+        names.append('type')
+    extra = []
+    if rng.random() < 0.45:
+        extra = rng.sample(OTHER_COLS + ['my col', 'a.b', 'x-1', 'Type', 'START', 'Len', 'strand2', 'types'], rng.choice([1, 1, 2, 3]))
+    if rng.random() < 0.06:
+        extra.append('defect')
+    names += extra
+    if rng.random() < 0.12 and names:
+        names.append(rng.choice(names))                     # a repeated column
+    rng.shuffle(names)
+    if not names and rng.random() < 0.8:
+        names = ['start', 'len']
+    for f in fts:
+        for e in extra:
+            if e != 'defect' and not any(k == e for k, _ in f['meta']):
+                v = rng.choice(XTEXT) if rng.random() < 0.96 else rng.choice(XTEXT_OUT)
+                if rng.random() < 0.97:
+                    f['meta'].append([e, [0, v]])
+        if rng.random() < 0.03:
+            f['meta'] = [kv for kv in f['meta'] if kv[0] != 'type']     # no type: the cell is empty (outside the domain)
+    fmt = rng.choice(['tsv', 'csv'])
+    sep = {'tsv': 'tab', 'csv': 'comma'}[fmt] if rng.random() < 0.45 else rng.choice(list(SEPS))
+    c = {'_k': 'xsvw', 'names': names, 'keystr': None, '_sep': sep, '_fmt': fmt, 'fts': fts, 'ft': None,
+         '_auto': rng.random() < 0.5, '_via': 'file' if rng.random() < 0.1 else 'str'}
+    if rng.random() < 0.45 and all(n and not any(ch.isspace() for ch in n) for n in names):
+        gaps = [rng.choice([' ', ' ', '  ', '\t', ' \t ', '\n', '\x0b ', '\r\n']) for _ in names]
+        ks = ''.join(n + g for n, g in zip(names, gaps))[:-len(gaps[-1])] if names else ''
+        if rng.random() < 0.25:
+            ks = rng.choice([' ', '\t', '  ']) + ks + rng.choice(['', ' ', '\n'])
+        c['keystr'] = ks
+    if rng.random() < 0.3:
+        if 'type' in names and rng.random() < 0.75:
+            c['names'] = names = [n for n in names if n != 'type']
+            if c['keystr'] is not None:
+                c['keystr'] = ' '.join(names)
+        r = rng.random()
+        c['ft'] = 'strand' if r < 0.3 else (rng.choice(extra) if extra and r < 0.5 else (rng.choice(TYPES + ['my type']) if r < 0.93 else rng.choice(['start', 'len', 'nan', '7'])))
+    for f in fts:
+        if rng.random() < 0.2 and [k for k, _ in f['meta']] == ['type']:
+            f['_ctor'] = rng.choice(['kw', 'tuple', 'type'])
+    return c
+
+
+def gen_xsvr(rng):
+    """a table written by another program: columns found by name in any order among foreign columns, len contradicting start/stop,
+    negative coordinates, blank lines, missing final newline, empty ranges, unknown strands, missing columns, ftype"""
+    names = [k for k in XKEYS if rng.random() < 0.7]
+    if rng.random() < 0.85:
+        while not _sel_ok(names):
+            names.append(rng.choice([k for k in ('start', 'stop', 'len') if k not in names]))
+    extra = rng.sample(OTHER_COLS + ['a.b', 'Type', 'START', 'comment'], rng.choice([0, 0, 1, 2]))
+    names += extra
+    if rng.random() < 0.1 and names:
+        names.append(rng.choice(names))
+    rng.shuffle(names)
+    if not names:
+        names = ['stop', 'len']
+    sepname = rng.choice(['tab', 'comma', 'tab', 'comma'] + list(SEPS))
+    sep = SEPS[sepname]
+    fmt = {'tab': 'tsv', 'comma': 'csv'}.get(sepname, rng.choice(['tsv', 'csv']))
+    lines = [sep.join(names)]
+    for _ in range(rng.choice([0, 1, 1, 2, 3, 4])):
+        a = rng.choice([0, 1, 5, 99, 1000, 123456, -3, -200])
+        ln = rng.choice([1, 2, 3, 10, 100, 4245])
+        b = a + ln
+        if rng.random() < 0.5 and 'start' in names and 'stop' in names:
+            ln = rng.choice([0, 7, -1, 99999])              # a len column that contradicts start/stop is not looked at
+        if rng.random() < 0.04:
+            b = a - rng.choice([0, 1, 10])
+            ln = b - a
+        vals = {'start': str(a), 'stop': str(b), 'len': str(ln), 'strand': rng.choice('++--.?'), 'type': rng.choice(TYPES)}
+        if rng.random() < 0.04:
+            vals['strand'] = rng.choice(['x', '++', '', '*', '1'])
+        if rng.random() < 0.04:
+            k = rng.choice(['start', 'stop', 'len'])
+            vals[k] = rng.choice([' ' + vals[k], '+' + vals[k].lstrip('-'), '0' + vals[k].lstrip('-'), vals[k] + '.0', 'x'])
+        cells = [vals[n] if n in vals else (rng.choice(XTEXT) if rng.random() < 0.97 else rng.choice(XTEXT_OUT[:-1])) for n in names]
+        if rng.random() < 0.03:
+            cells = cells[:-1] if rng.random() < 0.5 else cells + ['9']
+        lines.append(sep.join(cells))
+        if rng.random() < 0.1:
+            lines.append('')
+    if rng.random() < 0.05:
+        lines.insert(0, '')
+    t = '\n'.join(lines) + ('\n' if rng.random() < 0.9 else '')
+    if rng.random() < 0.02:
+        t = rng.choice(['', '\n', '\n\n'])
+    c = {'_k': 'xsvr', 't': t, '_sep': sepname, '_fmt': fmt, 'ft': None}
+    if rng.random() < 0.3:
+        if 'type' in names and rng.random() < 0.75:
+            # drop the type column from the text
+            idx = [i for i, n in enumerate(names) if n != 'type']
+            ls = []
+            for ln in t.split('\n'):
+                cs = ln.split(sep)
+                ls.append(sep.join(cs[i] for i in idx if i < len(cs)) if ln else ln)
+            c['t'] = '\n'.join(ls)
+            names = [names[i] for i in idx]
+        r = rng.random()
+        c['ft'] = 'strand' if r < 0.3 else (rng.choice(extra) if extra and r < 0.5 else (rng.choice(TYPES + ['my type']) if r < 0.95 else rng.choice(['start', 'nan'])))
     return c
 
 
@@ -1220,6 +1527,7 @@ def gen_cases(rng, tier):
     nhist = 250 if tier != 'thorough' else 1500
     nopt = 120 if tier != 'thorough' else 1500
     nseq = 120 if tier != 'thorough' else 1500
+    nxsvr = 120 if tier != 'thorough' else 2000
     cases = []
     for _ in range(nobj):
         cases.append(gen_obj(rng, in_domain=rng.random() < 0.9))
@@ -1253,9 +1561,17 @@ def gen_cases(rng, tier):
                     c['keys'] = [k for k in allkeys if k in XKEYS]
                 else:
                     c.pop('allkeys', None)
-                cases.append(c)
+                c2 = gen_xsvw(rng)
+                ex = [n for n in c2['names'] if n not in XKEYS]
+                nm = list(ks) + ex
+                rng.shuffle(nm)
+                c2.update({'names': nm, 'keystr': None if c2['keystr'] is None else ' '.join(nm), 'ft': None})
+                cases.append(c2)
     for _ in range(nxsv):
-        cases.append(gen_xsv(rng))
+        cases.append(gen_xsvw(rng))
+    for _ in range(nxsvr):
+        cases.append(gen_xsvr(rng))
+    rng.shuffle(cases)            # heavy and light streams interleaved: the shards of the model evaluation take equally long
     return cases
 
 
@@ -1269,13 +1585,20 @@ def _case_feats(case, got):
 
 def nontrivial(case, got):
     if isinstance(got, dict):
-        return None
+        return ('xsvr:' + got['e']) if case['_k'] == 'xsvr' else None
     if case['_k'] == 'hist':
         return 'hist:' + ','.join(st[0] for st in case['steps'])
     if case['_k'] == 'seqgff':
         return 'seqgff:%d:%d' % (len(case['seqs']), len(got[1]))
     if case['_k'] == 'xsv':
         return 'xsv:' + ','.join(case['keys']) + ':' + case['_sep']
+    if case['_k'] == 'xsvw':
+        return 'xsvw:%r:%s:%r:%s' % (case['keystr'] if case.get('keystr') is not None else case['names'], case['_sep'], case.get('ft'),
+                                    'err' if isinstance(got[1], dict) else 'ok')
+    if case['_k'] == 'xsvr':
+        return 'xsvr:%s:%s:%r' % (case['t'].split('\n')[0], case['_sep'], case.get('ft'))
+    if case['_k'] == 'disp':
+        return 'disp:%r' % (case.get('fmt'),)
     marks = set()
     for meta, gff, locs in got[0]:
         if len(locs) > 1:
@@ -1312,6 +1635,15 @@ def histkey(case, got):
     elif case['_k'] == 'xsv':
         ks.append('xsv-sep=' + case['_sep'])
         ks.append('xsv-ncols=%d' % len(case['keys']))
+    elif case['_k'] in ('xsvw', 'xsvr'):
+        ks.append('xsv-sep=' + case['_sep'])
+        r = got[1] if case['_k'] == 'xsvw' and isinstance(got, list) else got
+        ks.append(case['_k'] + '-read=' + (r['e'] if isinstance(r, dict) else 'ok'))
+        if case['_k'] == 'xsvw':
+            ks.append('xsvw-keys=' + ('str' if case.get('keystr') is not None else 'list'))
+            ks.append('xsvw-ncols=%d' % len(case['names']))
+        if case.get('ft') is not None:
+            ks.append(case['_k'] + '-ftype')
     elif isinstance(got, list):
         ks.append('features=%d' % len(got[0]))
         ks.append('maxlocs=%d' % max([len(f[2]) for f in got[0]] or [0]))
@@ -1378,6 +1710,8 @@ def python_snippet(case):
         return ("import sys; sys.path.insert(0, '/verif/tools')\nfrom props.c02 import impl\ncase = %r\nfor part in impl(case): print(part)" % (case,))
     if case['_k'] == 'hist':
         return ("import sys; sys.path.insert(0, '/verif/tools')\nfrom props.c02 import impl\ncase = %r\nfor part in impl(case): print(part)" % (case,))
+    if case['_k'] in ('xsvw', 'xsvr', 'disp'):
+        return ("import sys; sys.path.insert(0, '/verif/tools')\nfrom props.c02 import impl\ncase = %r\nprint(impl(case))" % (case,))
     if case['_k'] == 'text':
         return ("import io\nfrom sugar import read_fts\nt = %r\nx = read_fts(io.StringIO(t), fmt='gff')\nw1 = x.tofmtstr('gff')\n"
                 "x1 = read_fts(io.StringIO(w1), fmt='gff')\nw2 = x1.tofmtstr('gff')\nw3 = read_fts(io.StringIO(w2), fmt='gff').tofmtstr('gff')\n"
@@ -1395,15 +1729,20 @@ def python_snippet(case):
 
 LEVEL_TEXT = ('Machine-checked Coq theorems about an executable Gallina model of sugar\'s GFF3 reader/writer (line parser, percent-encoding, '
               'attribute column, same-ID merge with per-location difference dicts, copyattrs aliases, writer with per-location lines and '
-              'per-line source, LocationTuple ordering, reader options) and of the TSV/CSV column arithmetic. Main theorems: '
+              'per-line source, LocationTuple ordering, reader options) and of the TSV/CSV bridge at the text level (str.split() of the keys, '
+              'tolists for any list of column names, the table text, reading it back cell by cell, the decision table of frompandas, '
+              'ftype). Main theorems: '
               'C02_gff_roundtrip_fix (for every feature list of the domain, write -> read -> write is byte-identical and every feature is '
-              'read back with the same type, ordered locations, coordinates, strand and per-location effective attributes) and '
+              'read back with the same type, ordered locations, coordinates, strand and per-location effective attributes), '
               'C02_gff_third_write (also when first locations carry attributes of their own, what is read back lies in that domain, so the '
-              'text is stable from the second write on). The model is tied to /repo on every run: copyattrs, the reserved Attr names and '
+              'text is stable from the second write on) and C02_xsv_total (for EVERY list of column names, separator and feature list the '
+              'written table is read back with range / strand / type exactly when the names hold start and stop or len and one of them, '
+              'and is a KeyError otherwise). The model is tied to /repo on every run: copyattrs, the reserved Attr names and '
               'urllib\'s safe set are regenerated, and model and implementation are compared on parsed features and three successive '
               'written texts for generated objects, generated and mutated GFF text, edited features, call histories on shared live objects, '
-              'reader/writer options, and TSV/CSV files through the real pandas.')
-LEVEL_NOTE = ('Proved (30 theorems, all closed under the global context): unquote(quote s) = s for every byte string and unquote of any mixed '
+              'reader/writer options, and on the written table text (byte for byte) and the records read back for TSV/CSV files through '
+              'the real pandas, including tables written by other programs.')
+LEVEL_NOTE = ('Proved (39 theorems, all closed under the global context): unquote(quote s) = s for every byte string and unquote of any mixed '
               'raw / upper- / lower-case escape encoding; quoted fields contain no separator; decimal coordinates round-trip (columns 4/5 are '
               'start+1 and stop); key=value items (also padded with blanks) and the whole attribute column round-trip with order and list '
               'values; one line <-> (type, seqid, source, score, phase, strand, location, attributes) for every combination of present / '
@@ -1413,13 +1752,27 @@ LEVEL_NOTE = ('Proved (30 theorems, all closed under the global context): unquot
               'included); comment / blank lines are ignored anywhere and reading stops at ##FASTA; the option reader with options off and '
               'the harness writer (invented IDs canonicalised) are the reader / writer of the theorems; any two of start/stop/len recover the '
               'range for any column selection and order, per feature and over whole lists. '
+              'Added in round 7 (TSV/CSV at the text level): C02_keys_str / C02_keys_str_words (keys given as one string, any white space, '
+              'select the columns their names select); C02_table_text (for any separator that occurs in no name or cell, the written text '
+              'read cell by cell gives back the names and every cell); C02_xrecord_total, C02_xsv_total, C02_xsv_total_dom (for EVERY list of '
+              'column names - any order, any subset, repetitions, defect, foreign metadata columns -, every such separator, every ftype and '
+              'every feature list: one record per feature with 0-based start, half-open stop, strand if selected else ?, type if selected '
+              'or supplied by ftype, iff the names hold start and stop or len and one of them; KeyError otherwise; the _dom form is stated '
+              'on the boolean domain flags evaluated for every generated case); the decision table of frompandas on ANY record, also of '
+              'tables from elsewhere: C02_xrecord_errors (KeyError iff neither pair of names is there, whatever the cells), C02_len_ignored '
+              '(start and stop win over a contradicting len), C02_xrecord_table (a returned record has start < stop, one of the strands '
+              '+ - . ?, coordinates from the start / stop columns or stop = start + len, start = stop - len). The real code differs from the '
+              'model in one corner that is kept out of the correspondence domain: a table whose only columns are len yields no records and '
+              'no error, because pandas drops the rows of a frame without columns. '
               'Refuted with a witness and excluded from the round-trip theorem\'s domain (rt_C02), but generated and checked by the oracle: '
               'features whose first 5\'->3\' location has attributes of its own (C02_firstloc_overrides_refuted; open finding F39, reported as '
               'KNOWN-FINDING only when it is the sole failure of a case and model and code agree); neighbouring features with one '
               '(ID, type, seqid) are one feature to the reader (C02_adjacent_same_id_refuted). Per-line source (F38) is inside the domain: '
               'C02_loc_source_kept. Only tested, not proved: split features without ID (the writer invents distinct IDs); filt / filt_fast / '
               'default_ftype / comments / header options; file order of the lines of a split feature (beyond the ordering theorems); '
-              'state independence (histories); dispatch read_fts/write_fts; everything pandas does (separators, quoting, dtype inference). '
+              'state independence (histories); dispatch read_fts/write_fts; everything pandas does beyond the unquoted cell grid (quoting of '
+              'cells that contain the separator / quotes / line breaks - sugar has no code of its own for it -, dtype inference, NA words: '
+              'such cells are outside the model\'s domain flag). '
               'Statement coverage of the modelled functions in the quick tier: 100 % except sugar/_io/tab/xsv.py lines 86-87 and 95-96 '
               '(ImportError branches, unreachable with pandas installed). Trusted: Coq kernel/vm_compute, tools/gens/c02.py, the '
               'correspondence harness, CPython str/int/float/dict/sorted, urllib quote/unquote on ASCII. Domain: ASCII fields; keys not '
